@@ -198,6 +198,26 @@ open PdfVerif.LabelsGen in
 theorem alpha_translated_cex : genFormatIntAlpha 28 = .ok [97, 98] := by
   rw [alpha_translated]; exact alpha_cex_values.1
 
+open PdfVerif.LabelsGen in
+/-- `PageLabels._format_page_label` as the TRANSLATED if/elif chain (`style is LIT("D")` → `str(value)`,
+`R` → `format_int_roman(value).upper()`, … in source order, the `None` and `else` labels) over the
+translated numeral functions = the hand model, for every value and every style (unknown ones too). -/
+theorem format_page_label_translated (v : Int) (style : Option Bytes) :
+    genFormatPageLabel v style = formatPageLabel v style :=
+  PdfVerif.Lemmas.LabelsGen.genFormatPageLabel_eq v style
+
+open PdfVerif.LabelsGen in
+/-- A range of `PageLabels.labels` that is followed by another one, from the TRANSLATED
+`label_dict.get("St", 1)`, `label_dict.get("P", b"")`, `range_length = end - start`,
+`values = range(first_value, first_value + range_length)`: what the hand model's generator yields for
+it (cut after `n` labels), then the generator goes on with the next range. -/
+theorem labels_range_translated (s e : Int) (d d' : LabelDict) (rest : List (Int × LabelDict)) (n : Nat) :
+    labelsFrom s d ((e, d') :: rest) n =
+      (genRangeLabels d s e).take n ++ labelsFrom e d' rest (n - min (e - s).toNat n) := by
+  rw [PdfVerif.Lemmas.LabelsGen.genRangeLabels_eq]
+  simp only [labelsFrom, rangeLabels, ← List.map_take, List.take_range]
+  rw [Nat.min_comm]
+
 /-- Non-vacuity: the translated code evaluated by the kernel — numerals with every kind of digit
 (9, 4, ≥ 5, < 5), the assertion, the loop body with an index past the table (IndexError), letters. -/
 example : (PdfVerif.LabelsGen.genFormatIntRoman 3949).toOption = some [109, 109, 109, 99, 109, 120, 108, 105, 120] := by
@@ -214,6 +234,11 @@ example : (PdfVerif.LabelsGen.liftErr (PdfVerif.Gen.LabelCode.format_int_roman_b
     = some (4, 2, [[108], [120, 120], [105]]) := by decide +kernel
 example : (PdfVerif.LabelsGen.genFormatIntAlpha 703).toOption = some [97, 97, 97] := by decide +kernel
 example : (PdfVerif.LabelsGen.genFormatIntAlpha 0).toOption = none := by decide +kernel
+example : (PdfVerif.LabelsGen.genFormatPageLabel 1949 (some styleR)).toOption = some [77, 67, 77, 88, 76, 73, 88] := by
+  decide +kernel
+example : (PdfVerif.LabelsGen.genFormatPageLabel 5 (some [120])).toOption = some [] := by decide +kernel
+example : (PdfVerif.LabelsGen.genRangeLabels { style := some styleD, pfx := some [65, 45] } 3 5).map Except.toOption
+    = [some [65, 45, 49], some [65, 45, 50]] := by decide +kernel
 
 /-- The loop bound of the letters model is never the reason it stops: any fuel `≥ value` gives
 the same result (the code's `while value != 0` terminates since `(value − 1) / 26 < value`). -/
